@@ -1,8 +1,22 @@
-/- C09 — ARC policy (initial statements; the full step = spec theorems follow the ARC backbone) -/
-import Caches.Model.Arc
+/-
+  C09 — AdaptiveCache follows the ARC policy and keeps 0 ≤ p ≤ size.
+  `ArcSpec` is the policy as the property text states it; on every well-formed cache (all sizes ≥ 1, all contents,
+  all values of p) the model of the code computes exactly that. `p ≤ size` in every reachable state is part of the
+  invariant (C01.arc_reachable).
+-/
+import Caches.Lemmas.Arc
+import Caches.Lemmas.Reach
+import Caches.Props.ArcSpec
+set_option linter.unusedSectionVars false
+set_option linter.unusedVariables false
+set_option linter.unusedSimpArgs false
 namespace C09
 open M
 variable {κ ν : Type} [DecidableEq κ]
+
+/-- the abstract view of a model state -/
+def view (a : Arc κ ν) : ArcSpec.St κ ν :=
+  { t1 := a.recent.items, t2 := a.frequent.items, b1 := a.recentEvict.items, b2 := a.frequentEvict.items, p := a.p }
 
 /-- `replace` takes its victim from the recent list iff it is non-empty and longer than `p`
     (or equal to `p` on a frequent-ghost hit), or the frequent list is empty -/
@@ -11,4 +25,273 @@ theorem replace_rule (a : Arc κ ν) (hitB2 : Bool) :
       a.recent.items.length > 0 ∧ (a.recent.items.length > a.p ∨ (a.recent.items.length = a.p ∧ hitB2 = true) ∨
         a.frequent.items = []) := by
   unfold Arc.replaceFromRecent RawLru.isEmpty; simp [or_assoc]
+
+theorem fromRecent_eq_spec (a : Arc κ ν) (b : Bool) : a.replaceFromRecent b = ArcSpec.fromRecent (view a) b := by
+  unfold Arc.replaceFromRecent ArcSpec.fromRecent view RawLru.isEmpty
+  have : (a.frequent.items.length == 0) = decide (a.frequent.items.length = 0) := by
+    by_cases h : a.frequent.items.length = 0 <;> simp [h]
+  simp only [this]
+
+/-- the adaptation amounts of the code are the ones of the statement: `max 1 (|other ghosts| / |hit ghosts|)` -/
+theorem delta_eq (x y : Nat) (hy : 0 < y) : (if x > y then x / y else 1) = max 1 (x / y) := by
+  by_cases h : x > y
+  · simp only [h, if_true]
+    have : 1 ≤ x / y := (Nat.le_div_iff_mul_le hy).2 (by omega)
+    omega
+  · simp only [h, if_false]
+    have : x / y ≤ 1 := by
+      have : x ≤ y := by omega
+      calc x / y ≤ y / y := Nat.div_le_div_right this
+        _ = 1 := Nat.div_self hy
+    omega
+
+theorem replace_eq_spec (a : Arc κ ν) (hitB2 : Bool) (h : a.Inv) :
+    ∃ a' d, a.replace hitB2 = .ok (a', d) ∧ view a' = ArcSpec.replace (view a) a.size hitB2 ∧ a'.size = a.size := by
+  unfold Arc.replace ArcSpec.replace
+  rw [← fromRecent_eq_spec]
+  by_cases hfr : a.replaceFromRecent hitB2 = true
+  · simp only [hfr, if_true, view]
+    cases hl : a.recent.items.getLast? with
+    | none => simp only [RawLru.removeLruIn, hl]; exact ⟨_, _, rfl, rfl, rfl⟩
+    | some e =>
+      simp only [RawLru.removeLruIn_some _ e hl]
+      by_cases hgfull : a.recentEvict.cap ≤ a.recentEvict.items.length
+      · obtain ⟨g, hg⟩ := getLast?_some_of_pos a.recentEvict.items (by have := h.cb1; have := h.spos; omega)
+        simp only [RawLru.putNonnull_full _ _ g hgfull hg]
+        refine ⟨_, _, rfl, ?_, rfl⟩
+        have : a.recentEvict.items.length ≥ a.size := by have := h.cb1; omega
+        simp only [ArcSpec.remember, this, if_true]
+      · have hroom : a.recentEvict.items.length < a.recentEvict.cap := by omega
+        simp only [RawLru.putNonnull_room _ _ hroom]
+        refine ⟨_, _, rfl, ?_, rfl⟩
+        have : ¬ a.recentEvict.items.length ≥ a.size := by have := h.cb1; omega
+        simp only [ArcSpec.remember, this, if_false]
+  · simp only [hfr, if_false, Bool.false_eq_true, view]
+    cases hl : a.frequent.items.getLast? with
+    | none => simp only [RawLru.removeLruIn, hl]; exact ⟨_, _, rfl, rfl, rfl⟩
+    | some e =>
+      simp only [RawLru.removeLruIn_some _ e hl]
+      by_cases hgfull : a.frequentEvict.cap ≤ a.frequentEvict.items.length
+      · obtain ⟨g, hg⟩ := getLast?_some_of_pos a.frequentEvict.items (by have := h.cb2; have := h.spos; omega)
+        simp only [RawLru.putNonnull_full _ _ g hgfull hg]
+        refine ⟨_, _, rfl, ?_, rfl⟩
+        have : a.frequentEvict.items.length ≥ a.size := by have := h.cb2; omega
+        simp only [ArcSpec.remember, this, if_true]
+      · have hroom : a.frequentEvict.items.length < a.frequentEvict.cap := by omega
+        simp only [RawLru.putNonnull_room _ _ hroom]
+        refine ⟨_, _, rfl, ?_, rfl⟩
+        have : ¬ a.frequentEvict.items.length ≥ a.size := by have := h.cb2; omega
+        simp only [ArcSpec.remember, this, if_false]
+
+theorem makeRoom_eq_spec (a : Arc κ ν) (hitB2 : Bool) (h : a.Inv) :
+    ∃ a' d, (if a.recent.items.length + a.frequent.items.length ≥ a.size then a.replace hitB2 else .ok (a, [])) = .ok (a', d) ∧
+      view a' = ArcSpec.makeRoom (view a) a.size hitB2 ∧ a'.size = a.size ∧ a'.Inv ∧
+      a'.recent.items.length + a'.frequent.items.length < a.size ∧ (∀ x, Arc.Held a' x → Arc.Held a x) := by
+  obtain ⟨a1, d1, hr1, hi1, hs1, _, hl1, hheld⟩ := Arc.makeRoom a hitB2 h
+  unfold ArcSpec.makeRoom
+  by_cases hfull : a.recent.items.length + a.frequent.items.length ≥ a.size
+  · simp only [hfull, if_true] at hr1 ⊢
+    obtain ⟨a', d, hr, hv, hs⟩ := replace_eq_spec a hitB2 h
+    rw [hr] at hr1; injection hr1 with e1; injection e1 with e1 _; subst e1
+    have : (view a).t1.length + (view a).t2.length ≥ a.size := hfull
+    simp only [this, if_true]
+    exact ⟨a', d, hr, hv, hs, hi1, hl1, hheld⟩
+  · simp only [hfull, if_false] at hr1 ⊢
+    injection hr1 with e1; injection e1 with e1 _; subst e1
+    have : ¬ (view a).t1.length + (view a).t2.length ≥ a.size := hfull
+    simp only [this, if_false]
+    exact ⟨a, [], rfl, rfl, rfl, h, by omega, fun x hx => hx⟩
+
+theorem dropLast_removeLru (c : RawLru κ ν) : (c.removeLru).1.items = c.items.dropLast ∧ (c.removeLru).1.cap = c.cap := by
+  unfold RawLru.removeLru RawLru.removeLruIn
+  cases hl : c.items.getLast? with
+  | none => have : c.items = [] := by simpa using hl
+            simp [this]
+  | some e => exact ⟨rfl, rfl⟩
+
+theorem trimRecent_view (a1 : Arc κ ν) (b1 : Nat) :
+    view (a1.trimRecentGhost b1).1 =
+      (if b1 > a1.size - a1.p then { view a1 with b1 := (view a1).b1.dropLast } else view a1) := by
+  unfold Arc.trimRecentGhost
+  by_cases hc : b1 > a1.size - a1.p
+  · simp only [hc, if_true]
+    have := dropLast_removeLru a1.recentEvict
+    unfold RawLru.removeLru RawLru.removeLruIn at this ⊢
+    cases hl : a1.recentEvict.items.getLast? with
+    | none => have he : a1.recentEvict.items = [] := by simpa using hl
+              simp [view, he]
+    | some e => simp [view]
+  · simp only [hc, if_false]
+
+theorem trimFrequent_view (a1 : Arc κ ν) (b2 : Nat) :
+    view (a1.trimFrequentGhost b2).1 =
+      (if b2 > a1.p then { view a1 with b2 := (view a1).b2.dropLast } else view a1) := by
+  unfold Arc.trimFrequentGhost
+  by_cases hc : b2 > a1.p
+  · simp only [hc, if_true]
+    unfold RawLru.removeLru RawLru.removeLruIn
+    cases hl : a1.frequentEvict.items.getLast? with
+    | none => have he : a1.frequentEvict.items = [] := by simpa using hl
+              simp [view, he]
+    | some e => simp [view]
+  · simp only [hc, if_false]
+
+/-- **`put` = the policy** (resident lists, ghost lists, adaptation target and result) -/
+theorem put_eq_spec (a : Arc κ ν) (k : κ) (v : ν) (h : a.Inv) :
+    ∃ r a' d, a.put k v = .ok (r, a', d) ∧ (view a', r) = ArcSpec.put (view a) a.size k v := by
+  have h0 := h
+  obtain ⟨nd1, nd2, ndb1, ndb2, d12, d1b1, d1b2, d2b1, d2b2, db, hb, hb1, hb2, c1, c2, cb1, cb2, ple, spos⟩ := h
+  unfold Arc.put ArcSpec.put
+  simp only [view]
+  cases h1 : find k a.recent.items with
+  | some old =>
+    have hroom : a.frequent.items.length < a.frequent.cap := by
+      have := length_erase_of_find k _ old h1; omega
+    simp only [RawLru.removeEnt_some _ k old h1, RawLru.putNonnull_room _ _ hroom]
+    exact ⟨_, _, _, rfl, rfl⟩
+  | none =>
+    simp only [RawLru.removeEnt_none _ k h1]
+    cases h2 : find k a.frequent.items with
+    | some old => exact ⟨_, _, _, rfl, by simp [RawLru.update, use]⟩
+    | none =>
+      simp only
+      cases hb1f : find k a.recentEvict.items with
+      | some old =>
+        have eb := erase_facts _ k old hb1f ndb1
+        simp only [RawLru.removeEnt_some _ k old hb1f]
+        have hb1pos : 0 < a.recentEvict.items.length := by have := eb.2.2.2.2; omega
+        have hdiv : ¬ (a.frequentEvict.items.length > a.recentEvict.items.length ∧ a.recentEvict.items.length = 0) := by
+          intro hc; omega
+        simp only [hdiv, if_false, delta_eq _ _ hb1pos]
+        have hpeq : (if a.p + max 1 (a.frequentEvict.items.length / a.recentEvict.items.length) ≥ a.size then a.size
+            else a.p + max 1 (a.frequentEvict.items.length / a.recentEvict.items.length)) =
+            min a.size (a.p + max 1 (a.frequentEvict.items.length / a.recentEvict.items.length)) := by
+          split <;> omega
+        rw [hpeq]
+        generalize hp' : min a.size (a.p + max 1 (a.frequentEvict.items.length / a.recentEvict.items.length)) = p'
+        have hp'le : p' ≤ a.size := by rw [← hp']; omega
+        have hi1 : ({ a with p := p', recentEvict := { a.recentEvict with items := erase k a.recentEvict.items } } : Arc κ ν).Inv := by
+          constructor <;> simp only <;> first | assumption | omega | grind
+        obtain ⟨a2, d, hr, hv, hs2, hi2, hl2, _⟩ := makeRoom_eq_spec _ false hi1
+        simp only at hr
+        simp only [hr]
+        have hroom : a2.frequent.items.length < a2.frequent.cap := by have := hi2.c2; simp only at hl2 hs2; omega
+        simp only [RawLru.putNonnull_room _ _ hroom]
+        refine ⟨_, _, _, rfl, ?_⟩
+        simp only [view] at hv
+        rw [← hv]
+      | none =>
+        simp only [RawLru.removeEnt_none _ k hb1f]
+        cases hb2f : find k a.frequentEvict.items with
+        | some old =>
+          have eb := erase_facts _ k old hb2f ndb2
+          simp only [RawLru.removeEnt_some _ k old hb2f]
+          have hb2pos : 0 < a.frequentEvict.items.length := by have := eb.2.2.2.2; omega
+          have hdiv : ¬ (a.recentEvict.items.length > a.frequentEvict.items.length ∧ a.frequentEvict.items.length = 0) := by
+            intro hc; omega
+          simp only [hdiv, if_false, delta_eq _ _ hb2pos]
+          have hpeq : (if max 1 (a.recentEvict.items.length / a.frequentEvict.items.length) ≥ a.p then 0
+              else a.p - max 1 (a.recentEvict.items.length / a.frequentEvict.items.length)) =
+              a.p - min a.p (max 1 (a.recentEvict.items.length / a.frequentEvict.items.length)) := by
+            split <;> omega
+          rw [hpeq]
+          generalize hp' : a.p - min a.p (max 1 (a.recentEvict.items.length / a.frequentEvict.items.length)) = p'
+          have hp'le : p' ≤ a.size := by rw [← hp']; omega
+          have hi1 : ({ a with p := p', frequentEvict := { a.frequentEvict with items := erase k a.frequentEvict.items } } : Arc κ ν).Inv := by
+            constructor <;> simp only <;> first | assumption | omega | grind
+          obtain ⟨a2, d, hr, hv, hs2, hi2, hl2, _⟩ := makeRoom_eq_spec _ true hi1
+          simp only at hr
+          simp only [hr]
+          have hroom : a2.frequent.items.length < a2.frequent.cap := by have := hi2.c2; simp only at hl2 hs2; omega
+          simp only [RawLru.putNonnull_room _ _ hroom]
+          refine ⟨_, _, _, rfl, ?_⟩
+          simp only [view] at hv
+          rw [← hv]
+        | none =>
+          simp only [RawLru.removeEnt_none _ k hb2f]
+          obtain ⟨a1, d, hr, hv, hs1, hi1, hl1, hheld1⟩ := makeRoom_eq_spec a false h0
+          simp only [hr]
+          have hsp : ¬ a1.size < a1.p := by have := hi1.ple; omega
+          simp only [hsp, if_false]
+          have t2 := Arc.trimRecentGhost_inv a1 a.recentEvict.items.length hi1
+          have v2 := trimRecent_view a1 a.recentEvict.items.length
+          rcases hA2 : a1.trimRecentGhost a.recentEvict.items.length with ⟨a2, d2⟩
+          rw [hA2] at t2 v2
+          obtain ⟨hi2, hs2, hr2, hf2, _⟩ := t2
+          simp only at hi2 hs2 hr2 hf2 v2
+          have t3 := Arc.trimFrequentGhost_inv a2 a.frequentEvict.items.length hi2
+          have v3 := trimFrequent_view a2 a.frequentEvict.items.length
+          rcases hA3 : a2.trimFrequentGhost a.frequentEvict.items.length with ⟨a3, d3⟩
+          rw [hA3] at t3 v3
+          obtain ⟨hi3, hs3, hr3, hf3, hk3⟩ := t3
+          simp only at hi3 hs3 hr3 hf3 v3
+          simp only [hA3]
+          -- `k` is new to `a3.recent`, and there is room
+          have hk1 := (find_none_iff k _).1 h1
+          have hf3' : find k a3.recent.items = none := by
+            rw [hr3, hr2, find_none_iff]
+            intro hc
+            have := hheld1 k (Or.inl hc)
+            unfold Arc.Held at this
+            rcases this with h | h | h | h
+            · exact hk1 h
+            · exact (find_none_iff k _).1 h2 h
+            · exact (find_none_iff k _).1 hb1f h
+            · exact (find_none_iff k _).1 hb2f h
+          have hroom : a3.recent.items.length < a3.recent.cap := by
+            have := hi3.c1; have := hi3.bound
+            rw [hr3, hr2] at *
+            have hf : a3.frequent = a1.frequent := by rw [hf3, hf2]
+            rw [hf] at *
+            omega
+          simp only [RawLru.put_absent_room _ k v hf3' hroom]
+          refine ⟨_, _, _, rfl, ?_⟩
+          have e2 : view a2 = (if a.recentEvict.items.length > a.size - (view a1).p
+              then { view a1 with b1 := (view a1).b1.dropLast } else view a1) := by rw [v2, hs1]; rfl
+          have e3 : view a3 = (if a.frequentEvict.items.length > (view a2).p
+              then { view a2 with b2 := (view a2).b2.dropLast } else view a2) := v3
+          have hfin : view ({ a3 with recent := { a3.recent with items := (k, v) :: a3.recent.items } } : Arc κ ν) =
+              ArcSpec.admit (view a1) a.size a.recentEvict.items.length a.frequentEvict.items.length k v := by
+            unfold ArcSpec.admit
+            simp only
+            rw [← e2, ← e3]
+            rfl
+          rw [hv] at hfin
+          exact congrArg (fun s => (s, (PutResult.put : PutResult κ ν))) hfin
+
+/-- **`get` / `get_mut` = the policy**: a second access moves the entry to the frequent list -/
+theorem get_eq_spec (a : Arc κ ν) (k : κ) (w : Option ν) (h : a.Inv) :
+    ∃ r a' d, a.getMut k w = .ok (r, a', d) ∧ (view a', r) = ArcSpec.get (view a) k w := by
+  unfold Arc.getMut ArcSpec.get
+  simp only [view]
+  cases h1 : find k a.recent.items with
+  | some old =>
+    have hroom : a.frequent.items.length < a.frequent.cap := by
+      have := length_erase_of_find k _ old h1; have := h.bound; have := h.c2; omega
+    simp only [Arc.moveToFrequent, RawLru.removeEnt_some _ k old h1, RawLru.putNonnull_room _ _ hroom]
+    exact ⟨_, _, _, rfl, rfl⟩
+  | none =>
+    simp only [RawLru.getMut]
+    cases h2 : find k a.frequent.items with
+    | none => exact ⟨_, _, _, rfl, rfl⟩
+    | some old => exact ⟨_, _, _, rfl, by simp [use]⟩
+
+/-- `0 ≤ p ≤ size` in every reachable state, for every size ≥ 1 and every history -/
+theorem p_le_size (size : Nat) (a0 : Arc κ ν) (hc : Arc.new size = some a0) (ops : List (CacheOp κ ν)) :
+    ∃ a, runOps Arc.step a0 ops = .ok a ∧ a.p ≤ size ∧ a.recent.items.length + a.frequent.items.length ≤ size := by
+  have h0 := Arc.inv_new size a0 hc
+  obtain ⟨a, hr, hi, h1⟩ := runOps_inv Arc.step (Arc.InvC size) (Arc.step_invC size) ops a0 ⟨h0.1, h0.2.1⟩
+  have := hi.ple; have := hi.bound
+  exact ⟨a, hr, by omega, by omega⟩
+
+/-- a full cache always makes room before admitting: `replace` on a full, well-formed cache removes exactly one resident entry -/
+theorem full_makes_room (a : Arc κ ν) (hitB2 : Bool) (h : a.Inv) (hfull : a.recent.items.length + a.frequent.items.length ≥ a.size) :
+    ∃ a' d, a.replace hitB2 = .ok (a', d) ∧
+      a'.recent.items.length + a'.frequent.items.length + 1 = a.recent.items.length + a.frequent.items.length := by
+  obtain ⟨a', d, hr, _, _, _, hl, _⟩ := Arc.replace_total_inv a hitB2 h (by have := h.spos; omega)
+  exact ⟨a', d, hr, hl⟩
+
+/-- non-vacuity: size 1, `put a, put b, put a` ends with exactly one resident entry (the pre-repair code kept two) -/
+example : (ArcSpec.put ⟨[(2, 20)], [], [(1, 10)], [], 0⟩ 1 1 (11 : Nat)).1.t1 = [] ∧
+          (ArcSpec.put ⟨[(2, 20)], [], [(1, 10)], [], 0⟩ 1 1 (11 : Nat)).1.t2 = [(1, 11)] := by decide
 end C09
